@@ -158,8 +158,9 @@ def run_pipeline(model, source, rename_locals=True, rename_globals=False, preser
     """minify() itself, evaluated with only the renaming options on; the module it hands to the printer is printed by the repository's printer."""
     from ..absprint import print_obj
     from ..minrun import minify_tree
-    kind, _tree, mod = minify_tree(model, source, {'rename_locals': rename_locals, 'rename_globals': rename_globals, 'preserve_locals': list(preserve_locals),
-                                                   'preserve_globals': list(preserve_globals)})
+    as_given = lambda v: v if isinstance(v, (str, tuple)) else list(v)       # a bare string and a tuple are documented spellings of the argument
+    kind, _tree, mod = minify_tree(model, source, {'rename_locals': rename_locals, 'rename_globals': rename_globals, 'preserve_locals': as_given(preserve_locals),
+                                                   'preserve_globals': as_given(preserve_globals)})
     if kind != 'ok':
         raise MinifyRaises('minify() raises %s' % (_tree,))
     kind, text = print_obj(model, mod)
@@ -785,6 +786,25 @@ def make_adders(amounts):
         return adders[0](value), amounts, amounts
     return adders, first, amounts
 ''',
+    'property with a setter in a class inside a function whose parameter has the same name, nonlocal of it below a method': '''
+def make_sensor(reading):
+    class Sensor:
+        def __init__(self):
+            self._reading = reading
+        @property
+        def reading(self):
+            return self._reading
+        @reading.setter
+        def reading(self, new_reading):
+            self._reading = new_reading
+        def recalibrate(self, offset):
+            def apply():
+                nonlocal reading
+                reading = reading + offset
+                return reading
+            return apply()
+    return Sensor, reading
+''',
     'class attribute and method parameter share a name with an enclosing local': '''
 def build(registry):
     class Entry:
@@ -794,6 +814,24 @@ def build(registry):
     return Entry, registry, registry
 ''',
 }
+
+
+def class_body_names(tree):
+    """For every class, in source order: the names its body binds directly (attributes other code reaches as Class.name)."""
+    out = []
+    for n in ast.walk(tree):
+        if isinstance(n, ast.ClassDef):
+            names = []
+            for st in n.body:
+                if isinstance(st, (ast.FunctionDef, ast.AsyncFunctionDef, ast.ClassDef)):
+                    names.append(st.name)
+                elif isinstance(st, (ast.Assign, ast.AnnAssign, ast.AugAssign)):
+                    for t in (st.targets if isinstance(st, ast.Assign) else [st.target]):
+                        names += [x.id for x in ast.walk(t) if isinstance(x, ast.Name)]
+                elif isinstance(st, (ast.Import, ast.ImportFrom)):
+                    names += [(a.asname or a.name.split('.')[0]) for a in st.names]
+            out.append(names)
+    return out
 
 
 def idioms(model, rep, rule):
@@ -819,6 +857,9 @@ def idioms(model, rep, rule):
                 pairs, structural = [], []
                 _walk_pairs(a, b, (), {}, pairs, structural)
                 problems += structural[:2]
+                ca, cb = class_body_names(a), class_body_names(b)
+                if ca != cb:
+                    problems.append('names bound in class bodies changed: %s -> %s' % ([x for x, y in zip(ca, cb) if x != y][:1], [y for x, y in zip(ca, cb) if x != y][:1]))
             except SyntaxError as e:
                 problems.append('the output does not parse: %s' % e)
             rep.check(not problems, rule, fi.loc(), 'probe `%s`, %s -> %r' % (label, clabel, text[:70]), 'compiles, same structure, no reference loses its binding',
